@@ -4,7 +4,7 @@
 # usage: tools/eval_seeds.sh C03/A C03/B ...
 here="$(cd "$(dirname "$0")/.." && pwd)"
 for x in "$@"; do
-  id="${x%%/*}"; ab="${x##*/}"; src="/tmp/seed/out/$x"; dst="$here/seeded/$id-$ab"
+  id="${x%%/*}"; ab="${x##*/}"; src="${SEED_SRC:-/tmp/seed/out}/$x"; dst="$here/seeded/$id-$ab"
   echo "=== $x"
   conf=$("$here/tools/confirm_seed.sh" "$src" 2>&1 | tail -2)
   echo "$conf"
